@@ -60,4 +60,8 @@ PROPERTIES = {
     "C10": {"scans": [_scans_engine]},
     "C11": {},
     "C13": {},
+    "C09": {"assumptions": [
+        "REACH is the least relation closed under 'start' and 'transition target': the induction principle is applied once, to the set yielded by visit_connected_states (Visit.derived); closedness of that set is a discharged postcondition",
+        "State objects are compared by identity in sets/dicts (State.__hash__/__eq__ consistent, (name,id) pairs distinct)",
+        "cls.states / cls.final_states / cls.initial_state as set up by StateMachineMetaclass.__init__ (class_wf)"]},
 }
